@@ -111,6 +111,9 @@ package luasandbox
 //@   ensures forbiddenGlobalsNil: forbiddenNil()
 //@   ensures stringRepDumpNil: typeIs(gVal["string"], *lua.LTable) ==> fNil[libTable("string")]["rep"] && fNil[libTable("string")]["dump"]
 //@   ensures randomseedNil: typeIs(gVal["math"], *lua.LTable) ==> fNil[libTable("math")]["randomseed"]
+//@   # the table the string library was loaded into is also the metatable gopher-lua gives every string VALUE
+//@   # ("x"):rep(n) goes through it): it is that table, not a copy, that must be stripped and write-protected
+//@   ensures loadedStringTableStripped: typeIs(old(gVal["string"]), *lua.LTable) ==> fNil[as(old(gVal["string"]), *lua.LTable)]["rep"] && fNil[as(old(gVal["string"]), *lua.LTable)]["dump"] && protected(as(old(gVal["string"]), *lua.LTable))
 //@   ensures stringProtected: libProtected("string")
 //@   ensures mathProtected: libProtected("math")
 //@   ensures coroutineProtected: libProtected("coroutine")
